@@ -1189,7 +1189,7 @@ def rule_N7(ctx):
     stores = [e for e in ex.events if e.name == "store_attr" and e.kwargs.get("attr") == "_log_prior"]
     if not stores:
         unrec("%s never stores _log_prior" % fd.qualname)
-    bad = next((e for e in stores if not _equal_under(e.guards, e.args[1], sp.result)), None)
+    bad = next((e for e in stores if not _equal_under(e.full_guards, e.args[1], sp.result)), None)
     ctx.check(bad is None, "N7", fd.qualname + ": _log_prior = recorded value, else -log(number of grid points)", fd.where(bad.node) if bad else fd.where(), "the restored tree's prior is %s; expected %s" % (show(bad.args[1]) if bad else "", show(sp.result)), construct=fd.qualname, stmt="_log_prior")
     gs = vkey(Poly.atom(("sub", Pk(1), ("const", "'grid_size'"))))
     by_node = {}
@@ -1205,7 +1205,7 @@ def rule_N7(ctx):
             if vkey(e.args[0]) != gs:
                 ok, why = False, "a restored node is built with shape %s, not tree_dict['grid_size']" % show(e.args[0])
                 break
-            if not _equal_under(e.guards, e.args[1], sp.result):
+            if not _equal_under(e.full_guards, e.args[1], sp.result):
                 ok, why = False, "a restored node is filled with %s, not with the tree's prior" % show(e.args[1])
                 break
         ctx.check(ok, "N7", fd.qualname + ": TreeNode site %d gets (grid_size, log_prior)" % i, fd.where(evs[0].node), why, construct=fd.qualname, stmt="TreeNode site %d" % i)
